@@ -76,3 +76,20 @@ Definition eval2 (f : fn2) (t : ty) (a b : Z) : result :=
         if wide_signed t && negb (fits t (Z.abs (a - b))) then RNA else RVal (abs_diff t a b)
       else RNA
   end.
+
+(** two operands of different types (div_ceil / round_up only) *)
+Definition eval2m (f : fn2) (tn tk : ty) (a b : Z) : result :=
+  if inrange tn a && inrange tk b && (1 <=? b) then
+    let R := common_type tn tk in
+    match f with
+    | FDivCeil => RVal (div_ceil_mixed tn tk a b)
+    | FRoundUp =>
+        let a' := wrapT R a in let b' := wrapT R b in
+        let exact := (Z.quot a' b' + b2z (0 <? Z.rem a' b')) * b' in
+        if signed R && negb (inrange R exact) then RNA else RVal (round_up_mixed tn tk a b)
+    | _ => RNA
+    end
+  else RNA.
+
+Definition eval_range (l : list Z) : result :=
+  if forallb (fun b => (0 <=? b) && (b <? 256)) l then of_opt (popcount_range l) else RNA.
